@@ -129,12 +129,23 @@ pub fn pick_victim(rng: &mut Prng, jobs: &[String]) -> Option<String> {
     Some((*rng.pick(&of_kind)).clone())
 }
 
+/// Jobs that are the only one of their kind, and all the others
+fn unique_and_crowd(jobs: &[String]) -> (Vec<String>, Vec<String>) {
+    let mut count: std::collections::BTreeMap<&str, usize> = Default::default();
+    for j in jobs {
+        *count.entry(job_kind(j)).or_default() += 1;
+    }
+    let unique = jobs.iter().filter(|j| count[job_kind(j)] == 1).cloned().collect();
+    let crowd = jobs.iter().filter(|j| count[job_kind(j)] > 1).cloned().collect();
+    (unique, crowd)
+}
+
 pub fn random_strategy(rng: &mut Prng, reference: &ExecRecord) -> Strategy {
     let victim = |rng: &mut Prng| pick_victim(rng, &reference.jobs);
     let seed = rng.next();
     let base = Some(if rng.chance(1, 3) { "seq" } else { "rand" }.to_string());
     match rng.below(12) {
-        0..=2 => Strategy { name: "rand".into(), seed, victim: None, depth: 0, horizon: 0, base: None },
+        0..=2 => Strategy { name: "rand".into(), seed, victim: None, depth: 0, horizon: 0, base: None, also: vec![] },
         3 | 4 => Strategy {
             name: "pct".into(),
             seed,
@@ -142,13 +153,14 @@ pub fn random_strategy(rng: &mut Prng, reference: &ExecRecord) -> Strategy {
             depth: 1 + rng.below(6),
             horizon: reference.steps.max(100),
             base: None,
+            also: vec![],
         },
-        5 => Strategy { name: "starve-coord".into(), seed, victim: None, depth: 0, horizon: 0, base },
-        6 => Strategy { name: "eager-coord".into(), seed, victim: None, depth: 0, horizon: 0, base },
-        7 | 8 => Strategy { name: "delay-start".into(), seed, victim: victim(rng), depth: 0, horizon: 0, base },
-        9 => Strategy { name: "delay-done-a".into(), seed, victim: victim(rng), depth: 0, horizon: 0, base },
-        10 => Strategy { name: "delay-done-b".into(), seed, victim: victim(rng), depth: 0, horizon: 0, base },
-        _ => Strategy { name: "rush".into(), seed, victim: victim(rng), depth: 0, horizon: 0, base },
+        5 => Strategy { name: "starve-coord".into(), seed, victim: None, depth: 0, horizon: 0, base, also: vec![] },
+        6 => Strategy { name: "eager-coord".into(), seed, victim: None, depth: 0, horizon: 0, base, also: vec![] },
+        7 | 8 => Strategy { name: "delay-start".into(), seed, victim: victim(rng), depth: 0, horizon: 0, base, also: vec![] },
+        9 => Strategy { name: "delay-done-a".into(), seed, victim: victim(rng), depth: 0, horizon: 0, base, also: vec![] },
+        10 => Strategy { name: "delay-done-b".into(), seed, victim: victim(rng), depth: 0, horizon: 0, base, also: vec![] },
+        _ => Strategy { name: "rush".into(), seed, victim: victim(rng), depth: 0, horizon: 0, base, also: vec![] },
     }
 }
 
@@ -199,7 +211,7 @@ pub fn groups(property: &str, tier: &str, seed: u64) -> Vec<Group> {
                         seed: gseed,
                         reference,
                         recipe: if quick {
-                            Recipe::C02 { n_rand: 4, n_victims: 9 }
+                            Recipe::C02 { n_rand: 3, n_victims: 6 }
                         } else {
                             Recipe::C02 { n_rand: 40, n_victims: usize::MAX }
                         },
@@ -369,6 +381,7 @@ pub fn variations(group: &Group, reference: &ExecRecord) -> Vec<Plan> {
                                 depth: 0,
                                 horizon: 0,
                                 base: Some(if rng.chance(1, 2) { "seq" } else { "rand" }.into()),
+                                also: vec![],
                             };
                             p.yield_mask = random_mask(&mut rng);
                             out.push(p);
@@ -386,8 +399,78 @@ pub fn variations(group: &Group, reference: &ExecRecord) -> Vec<Plan> {
                         depth: 0,
                         horizon: 0,
                         base: Some(if rng.chance(1, 2) { "seq" } else { "rand" }.into()),
+                        also: vec![],
                     };
                     p.yield_mask = random_mask(&mut rng);
+                    out.push(p);
+                }
+            }
+            // two singled-out jobs: a one-of-a-kind job is made slow while another job's completion
+            // is held back, so that the coordinator hears of the second *while* the first is at work
+            let (unique, crowd) = unique_and_crowd(&reference.jobs);
+            // a completion message held back until a one-of-a-kind job is in the middle of its
+            // writes: the coordinator then hears of the finished job while the other is at work
+            // Only a job that replaces values other jobs wrote can pull the rug from under
+            // something the coordinator (or a job it then launches) has already looked at.
+            let writers: Vec<(&String, u32)> = reference
+                .rewriters
+                .iter()
+                .filter_map(|u| reference.writes_by_job.get(u).map(|w| (u, *w)))
+                .filter(|(_, w)| *w > 0)
+                .collect();
+            if !writers.is_empty() && !crowd.is_empty() {
+                let mut holds: Vec<(String, u32, String)> = Vec::new();
+                if *n_victims == usize::MAX {
+                    for (u, w) in &writers {
+                        let mut vs: Vec<&String> = crowd.iter().filter(|v| v != u).collect();
+                        while vs.len() > 40 {
+                            let i = rng.below(vs.len());
+                            vs.swap_remove(i);
+                        }
+                        for v in vs {
+                            holds.push(((*u).clone(), 1 + rng.below(*w as usize) as u32, v.clone()));
+                        }
+                    }
+                } else {
+                    for _ in 0..3 {
+                        let (u, w) = *rng.pick(&writers);
+                        holds.push((u.clone(), 1 + rng.below(w as usize) as u32, rng.pick(&crowd).clone()));
+                    }
+                }
+                for (u, n, v) in holds {
+                    let mut p = group.reference.clone();
+                    p.workers = *rng.pick(&[2usize, 3, 0]);
+                    p.strategy = Strategy {
+                        name: "rand".into(),
+                        seed: rng.next(),
+                        victim: None,
+                        depth: 0,
+                        horizon: 0,
+                        base: None,
+                        also: vec![(format!("hold-send-until-write:{u}:{n}"), v)],
+                    };
+                    p.yield_mask = u64::MAX;
+                    out.push(p);
+                }
+            }
+            if !unique.is_empty() && !crowd.is_empty() {
+                let pairs = if *n_victims == usize::MAX { unique.len() * 2 } else { 1 };
+                for i in 0..pairs {
+                    let u = if *n_victims == usize::MAX { unique[i % unique.len()].clone() } else { rng.pick(&unique).clone() };
+                    let v = rng.pick(&crowd).clone();
+                    let mut p = group.reference.clone();
+                    p.workers = *rng.pick(&[2usize, 3, 0]);
+                    p.strategy = Strategy {
+                        name: "delay-start".into(),
+                        seed: rng.next(),
+                        victim: Some(u),
+                        depth: 0,
+                        horizon: 0,
+                        base: Some("rand".into()),
+                        also: vec![(if rng.chance(2, 3) { "delay-done-b" } else { "delay-done-a" }.to_string(), v)],
+                    };
+                    // the slow job must be preemptible inside its body
+                    p.yield_mask = u64::MAX;
                     out.push(p);
                 }
             }
